@@ -448,7 +448,7 @@ func TestVerifC06(t *testing.T) {
 	}
 	scale := 3
 	if VThorough() {
-		scale = 80
+		scale = 30
 	}
 	scale = VEnvInt("C06_SCALE", scale)
 
@@ -824,23 +824,24 @@ func TestVerifC06(t *testing.T) {
 		hc := g.hello()
 		hs := hc.h.Handshake()
 		version := uint32(c06QuicV1)
-		switch g.r.Intn(6) {
+		vclass := "v1"
+		switch g.r.Intn(8) {
 		case 0, 1:
-			version = c06QuicV2
+			version, vclass = c06QuicV2, "v2"
 		case 2:
-			version = 0xff00001d // draft-29: salt differs from v1, handled as "draft" by the repo; our keys are v1 => never authenticates
+			version, vclass = 0xff00001d, "draft29" // authentic draft-29 keys
+		case 3:
+			version, vclass = 0x0a0a0a0a|uint32(g.r.Intn(16))<<28|uint32(g.r.Intn(16))<<20|uint32(g.r.Intn(16))<<12|uint32(g.r.Intn(16))<<4, "grease_version" // handled as v1 by the repo
+		case 4:
+			version, vclass = 0x12345678, "unknown_version" // ParseVersion fails: never authenticates
 		}
 		qc := g.quicCase(hs, version)
-		if version == 0xff00001d {
+		if vclass == "unknown_version" {
 			for _, se := range qc.oracle {
 				se.dead = true
 			}
-			qc.class = append(qc.class, "version.draft29_wrongkeys")
-		} else if version == c06QuicV2 {
-			qc.class = append(qc.class, "version.v2")
-		} else {
-			qc.class = append(qc.class, "version.v1")
 		}
+		qc.class = append(qc.class, "version."+vclass)
 		corrupt := g.r.Chance(0.2)
 		if corrupt {
 			g.quicCorrupt(qc)
@@ -861,7 +862,7 @@ func TestVerifC06(t *testing.T) {
 		} else if c06Field(out, "intact") != "1" {
 			violation("datagrams kept by the packet sniffer differ from what was appended: %.300s", out)
 		}
-		if !corrupt && version != 0xff00001d && !qc.hasClose {
+		if !corrupt && vclass != "unknown_version" && !qc.hasClose {
 			// every CRYPTO byte has arrived: the last answer must be the carried name
 			steps := strings.Fields(strings.SplitN(out, " # ", 2)[0])
 			last := strings.SplitN(steps[len(steps)-2], "/", 2)[0]
